@@ -53,6 +53,20 @@ var OpaqueTags = []string{
 	"namedFloat", "namedString", "namedBool", "json.RawMessage",
 	"Accessor{}", "map[string]float64", "raw-number", "raw-array", "*[]interface{}", "*map",
 	"anon-struct", "[]anon-struct", "map-of-*anon-struct",
+	"empty[]int", "empty[]string", "empty-namedSlice", "*struct{}", "*[0]int",
+}
+
+// ZeroSizeTags are non-nil values of different Go types whose storage is zero bytes long: the Go
+// runtime gives all of them one and the same address. They are different values all the same.
+var ZeroSizeTags = []string{"empty[]int", "empty[]string", "empty-namedSlice", "*struct{}", "*[0]int"}
+
+func IsZeroSizeTag(tag string) bool {
+	for _, t := range ZeroSizeTags {
+		if t == tag {
+			return true
+		}
+	}
+	return false
 }
 
 // WrapTags are opaque values that hold a document of their own: a pointer to it, an Accessor
@@ -204,6 +218,16 @@ func OpaqueValue(tag string) interface{} {
 		return &opSliceVal
 	case "*map":
 		return &opMapVal
+	case "empty[]int":
+		return make([]int, 0)
+	case "empty[]string":
+		return make([]string, 0)
+	case "empty-namedSlice":
+		return namedSlice{}
+	case "*struct{}":
+		return &struct{}{}
+	case "*[0]int":
+		return &[0]int{}
 	}
 	if len(tag) > 5 && tag[:5] == "wrap:" {
 		return WrapValue(tag, nil) // a wrapper whose content was trimmed away
